@@ -14,10 +14,12 @@ def c49Step (line : String) : String :=
     match parseCps s with
     | some l => showCps (C49.escapeControl (k == "1") l)
     | none => "bad-op"
+  | ["rawcount"] =>
+    s!"raw={((Gen.C49.echoLines.flatMap (·.2)).filter C49.isRaw).length}"
   | ["table"] =>
     let ls := Gen.C49.echoLines
     let pieces := ls.flatMap (·.2)
-    s!"lines={ls.length} pieces={pieces.length} paths={Gen.C49.echoPaths.length} raw={(pieces.filter C49.isRaw).length} ctrl={Gen.C49.ctrlTable.length} cc={Gen.C49.ccList.length}"
+    s!"lines={ls.length} pieces={pieces.length} paths={Gen.C49.echoPaths.length} raw={(pieces.filter C49.isRaw).length} ctrl={Gen.C49.ctrlTable.length} cc={Gen.C49.ccList.length} writes={Gen.C49.writeSites.length}"
   | _ => "bad-op"
 
 def main : IO Unit := runPure c49Step
